@@ -77,7 +77,18 @@ def observe_tree(root, per_node=True):
             ev["craised"] = o2
         elif errs2[0] is not sentinel or [(e[0], id(e[2])) for e in errs2[1:] if shape_ok(e)] != [(e[0], id(e[2])) for e in errs if shape_ok(e)]:
             ev["craised"] = {"kind": "other", "exc": "CollectingDependsOnEarlierEntries"}
+        else:
+            # ... also when the earlier entries are the findings of the previous run on this very tree (re-validation into
+            # the same list): the run appends all of them again and touches none of the old ones
+            errs3 = list(errs)
+            o3 = _outcome(lambda: validate.tree(root, errs3))
+            key = lambda es: [(e[0], e[1], id(e[2])) for e in es if shape_ok(e)]  # noqa: E731
+            if o3["kind"] != "ok":
+                ev["craised"] = o3
+            elif len(errs3) != 2 * len(errs) or any(a is not b for a, b in zip(errs3, errs)) or key(errs3[len(errs):]) != key(errs):
+                ev["rerun"] = False
     ev["per_node"] = per_node
+    ev.setdefault("rerun", True)
     return ev
 
 
